@@ -269,6 +269,29 @@ func exec(line string) string {
 			return "bad-op"
 		}
 		return hx.Hex(new(bn.G1).ScalarMult(a, k).Marshal())
+	case w[0] == "jlin" && len(w) == 5:
+		a, ok1 := ptOf(w[1])
+		k1, ok2 := bigDec(w[2])
+		b, ok3 := ptOf(w[3])
+		k2, ok4 := bigDec(w[4])
+		if !ok1 || !ok2 || !ok3 || !ok4 {
+			return "bad-op"
+		}
+		x := new(bn.G1).ScalarMult(a, k1)
+		y := new(bn.G1).ScalarMult(b, k2)
+		return hx.Hex(new(bn.G1).Add(x, y).Marshal())
+	case w[0] == "jdbl" && len(w) == 3:
+		a, ok1 := ptOf(w[1])
+		k, ok2 := bigDec(w[2])
+		if !ok1 || !ok2 {
+			return "bad-op"
+		}
+		// fresh values each time: Marshal normalises its receiver in place
+		mk := func() *bn.G1 { return new(bn.G1).ScalarMult(a, k) }
+		d := new(bn.G1).Add(mk(), mk()).Marshal()
+		n := new(bn.G1).Neg(mk()).Marshal()
+		z := new(bn.G1).Add(mk(), new(bn.G1).Neg(mk())).Marshal()
+		return hx.Hex(d) + " " + hx.Hex(n) + " " + hx.Hex(z)
 	case w[0] == "sign" && len(w) == 4:
 		k, ok1 := bigDec(w[1])
 		msg, ok2 := unhex(w[2])
@@ -881,6 +904,23 @@ func runCorr(a map[string]string) {
 			do("g1mul " + p + " " + g.scalar().String())
 		}
 		do("h2p " + hx.Hex(g.msg()))
+	}
+	// Jacobian arithmetic on NON-normalised operands (results of ScalarMult have z != 1)
+	for i := 0; i < narith; i++ {
+		p, q := hx.Hex(g.point()), hx.Hex(g.point())
+		k1, k2 := g.scalar(), g.scalar()
+		switch i % 6 {
+		case 0:
+			q = p // same base: Add sees equal x after cross-multiplication
+		case 1:
+			q, k2 = p, k1 // the very same point with different z: doubling branch
+		case 2:
+			q, k2 = p, new(big.Int).Sub(bigR, new(big.Int).Mod(k1, bigR)) // opposite points: z = 0 branch
+		case 3:
+			k2 = big.NewInt(0) // infinity operand
+		}
+		do("jlin " + p + " " + k1.String() + " " + q + " " + k2.String())
+		do("jdbl " + p + " " + k1.String())
 	}
 	// SHA-256 padding boundaries (the model hashes by itself now)
 	for _, n := range []int{0, 1, 54, 55, 56, 57, 63, 64, 65, 118, 119, 120, 127, 128, 129, 200} {
